@@ -96,3 +96,11 @@ Theorem c02_only_temperature_kind_restricted :
   && match find_kind si_kinds "TemperatureKind" with
      | Some k => forallb (fun m => negb (existsb (marker_eqb m) (k_markers k))) [MAdd; MAddAssign; MSub; MSubAssign; MNeg; MSaturating] | None => false end = true.
 Proof. vm_compute. reflexivity. Qed.
+
+(* ---- the generic operator impls of the source are bounded by the marker of their own trait on every dimension
+   parameter (Gen/OpsSrc.v is regenerated from the source on every run) ---- *)
+From UomV Require Import Model.OpsSrc Gen.OpsSrc Spec.OpsTie.
+Theorem c02_operator_marker_bounds :
+  forallb markers_ok src_ops = true
+  /\ forallb (fun i => invocation_ok (snd i)) src_impl_ops_invocations = true.
+Proof. split; [vm_compute; reflexivity|exact impl_ops_invocations_coherent]. Qed.
